@@ -1,6 +1,6 @@
 (* C16 — property theorems only. *)
 From Coq Require Import List Bool ZArith NArith String Ascii Lia.
-From V Require Import C16.Model C16.Spec C16.Proofs C16.ProofsConect.
+From V Require Import C16.Model C16.Spec C16.Proofs C16.ProofsConect C16.Decimal.
 From V Require Import Extracted.Formats.
 Import ListNotations.
 
@@ -38,6 +38,19 @@ Theorem str_field_roundtrip : forall s t a b,
   convert RStr (rep sp a ++ fmt_field s (VStr t) ++ rep sp b) = WStr t.
 Proof. exact str_field_roundtrip_lemma. Qed.
 Print Assumptions str_field_roundtrip.
+
+(* A fixed-point number (coordinates, occupancy, box) of ANY size and sign, written with p decimals, is read back
+   by the float columns as exactly that number with p decimals: the spelling "[-]digits.digits" with the fraction
+   zero-padded on the left is inverted by the decimal reader (standard-library decimal parser included). *)
+Theorem fix_number_roundtrip : forall p u, dec_parse (render_fix p u) = Some (u, p).
+Proof. exact fix_roundtrip. Qed.
+Print Assumptions fix_number_roundtrip.
+
+Theorem fix_field_roundtrip : forall s p u a b,
+  f_fill s = sp -> f_kind s = KFix p -> (List.length (render_fix p u) <= f_width s)%nat ->
+  convert RFloat (rep sp a ++ fmt_field s (VFix u) ++ rep sp b) = WDec u p.
+Proof. exact fix_field_roundtrip_lemma. Qed.
+Print Assumptions fix_field_roundtrip.
 
 (* An over-long value is cut inside its own field, keeping the significant end. *)
 Theorem overflow_truncates_in_place : forall s v,
